@@ -74,10 +74,15 @@ var fetchConnFaults = map[string]bool{"drop": true, "throttled-empty": true}
 func (cl *Cluster) fetchVariants(r *Req, req *sarama.FetchRequest) []gx.Variant {
 	blocks := sarama.VerifFetchBlocks(req)
 	if !cl.AnswerIdleFetch && cl.idleFetch(r, req, blocks) {
-		// long poll: a broker holds a fetch that has nothing to return until data arrives or
-		// MaxWaitTime expires. Expiry is offered as a separate low-priority variant and at most twice
-		// in a row, otherwise an idle consumer would poll for ever.
-		if cl.C.TrailingAny("Fetch.poll-expires", "tick:") >= 4 {
+		// long poll: a broker holds a fetch that has nothing to return until data arrives or MaxWaitTime
+		// expires, i.e. until (fake) time has passed since the request arrived: it becomes answerable
+		// (with an empty response) once the scenario has let time pass by a "tick:" action
+		ticks := cl.C.CountPrefix("tick:")
+		if !r.prepared {
+			r.prepared = true
+			r.ticksAtArrival = ticks
+		}
+		if ticks <= r.ticksAtArrival {
 			return nil
 		}
 		return []gx.Variant{cl.wrap(r, "Fetch", "poll-expires", func() { cl.doFetch(r, req, blocks, "ok", -1) })}
